@@ -48,11 +48,11 @@ def _mk(entries):
 def kitchen():
     """one layout with every feature the property names"""
     E = []
-    for d in ['base', 'base/sub', 'base/x.tex', 'base2', 'out', 'out/deep', 'out/base']:
+    for d in ['base', 'base/sub', 'base/x.tex', 'base2', 'out', 'out/deep', 'out/base', 'Base', 'BASE/sub']:     # siblings that differ from the directory in letter case only
         E.append(('d', d))
     files = ['base/a.tex', 'base/b.latex', 'base/c', 'base/c.tex', 'base/e.tex', 'base/e.latex', 'base/sub/d.tex',
              'base/q.tex.latex', 'base2/s.tex', 'base2/a.tex', 'base2/t', 'base.tex', 'base.latex', 'out/s.tex',
-             'out/t.latex', 'out/deep/u.tex', 'out/base/a.tex']
+             'out/t.latex', 'out/deep/u.tex', 'out/base/a.tex', 'Base/s.tex', 'Base/a.tex', 'BASE/sub/d.tex']
     for i, f in enumerate(files):
         E.append(('f', f, 'M%dZ' % i))
     E.append(('f', 'base/empty.tex', ''))
@@ -66,6 +66,7 @@ def kitchen():
              ('base/lchain.tex', 'li.tex'), ('base/lchain2.tex', 'lo.tex'), ('base/lt', '../out/t'),
              ('out/in', '../base'), ('out/ia.tex', '../base/a.tex'), ('blink', 'base'), ('base2/in', '../base'),
              ('base/sub/ls.tex', '../../base2/s.tex'),
+             ('base/lcase.tex', '../Base/s.tex'), ('base/dcase', '../Base'),
              ('out/back.tex', '../base/n1.tex'), ('out/back2.tex', '../base/n2.tex'), ('base2/back3.tex', '../base/sub/n3.tex'),
              # targets that pass through a link loop and '..': realpath() gives up and abspath() cancels 'loop/..'
              ('base/lx.tex', 'loop/../ly'), ('base/ly', '../out/s.tex'),
@@ -78,15 +79,16 @@ def kitchen():
 K_COMPONENTS = ['..', '.', 'sub', 'a', 'a.tex', 'b', 'c', 'e', 'q', 'q.tex', 's', 's.tex', 't', 'base', 'base2', 'base.tex',
                 'out', 'lo', 'lo.tex', 'lo2', 'la', 'li', 'up', 'dout', 'dsib', 'in', 'ia', 'dang', 'loop', 'x', 'x.tex',
                 'lolat', 'lchain', 'lchain2', 'lt', 'deep', 'u', 'd', 'd.tex', 'empty', 'blink', 'ls', 'nonex',
-                'lx', 'lx.tex', 'lx2', 'ly', 'ly2', 'lz', 'lxi', 'lxa', 'n1', 'n2', 'n3', 'back', 'back2', 'back3']
-K_SMALL = ['n1', 'back', 'back2', 'back3', '..', '.', 'sub', 'a', 's', 's.tex', 'base', 'base2', 'out', 'lo', 'up', 'dout', 'dsib', 'in', 'blink', 'lt', 't', 'ls', 'loop', 'ly', 'lx2']
+                'lx', 'lx.tex', 'lx2', 'ly', 'ly2', 'lz', 'lxi', 'lxa', 'n1', 'n2', 'n3', 'back', 'back2', 'back3', 'Base', 'BASE', 'lcase', 'dcase']
+K_SMALL = ['Base', 'lcase', 'dcase', 'n1', 'back', 'back2', 'back3', '..', '.', 'sub', 'a', 's', 's.tex', 'base', 'base2', 'out', 'lo', 'up', 'dout', 'dsib', 'in', 'blink', 'lt', 't', 'ls', 'loop', 'ly', 'lx2']
 K_DIRS = ['base', 'base/', 'blink', 'base/sub/..', 'base/sub', 'out/in', 'base2', 'out/base', 'out']
 ABS_NAMES = ['{R}/base/a.tex', '{R}/base/a', '{R}/base2/s.tex', '{R}/base2/s', '{R}/out/s', '{R}/base/lo', '{R}/base.tex',
              '{R}/base', '{R}/blink/a', '{R}/out/in/a', '{R}/base/../base2/s.tex', '{R}/base/./a', '/', '',
              '/nonexistent-pylx-c15/x.tex', '//', '{R}//base//a.tex', '{R}/base/a.tex/', 'a.tex/', 'sub/', './/a', 'a.tex/.', 'a.tex/..',
              'loop/../ly', 'loop/../lz', 'loop/../ly2', 'loop/../lo.tex', 'loop/../lo', 'loop/../dout/s.tex', 'loop/../a', 'loop/../a.tex',
              'loop/../../base2/s.tex', 'loop/../li', 'sub/up/loop/../ly', 'loop/../lx2', 'loop/../lx',
-             '..', '../..', '../../..', '../../../..', '../base', '../base.tex', '../base.latex', '../base2', '../base/a']
+             '..', '../..', '../../..', '../../../..', '../base', '../base.tex', '../base.latex', '../base2', '../base/a',
+             '../Base/s', '../Base/s.tex', '../Base/a', '../BASE/sub/d', '{R}/Base/s.tex', 'sub/../../Base/a.tex']
 
 def minimal_defect_layouts():
     """the two layouts of the preliminary findings, smallest form (run first)"""
@@ -100,7 +102,7 @@ def minimal_defect_layouts():
 
 STEMS = ['a', 's', 't']
 EXTS = ['', '.tex', '.latex', '.tex.latex']
-DIRNAMES = ['base', 'base2', 'basex', 'bas', 'out', 'o']
+DIRNAMES = ['base', 'base2', 'basex', 'bas', 'out', 'o', 'Base', 'OUT']
 
 def rand_layout(rng):
     tops = rng.sample(DIRNAMES, rng.randint(2, 4))
